@@ -530,11 +530,44 @@ func init() {
 			}
 			return 0, false
 		}
+		// sentinel reports whether v is the internal/oserror variable of that name
+		// (which os.ErrNotExist etc. alias, see aliasGlobal).
+		sentinel := func(fr *frame, v value, name string) bool {
+			it, ok := v.(iface)
+			if !ok || it.t == nil {
+				return false
+			}
+			oe := fr.i.prog.ImportedPackage("internal/oserror")
+			if oe == nil || !fr.i.initRun[oe] {
+				return false
+			}
+			g, ok := oe.Members[name].(*ssa.Global)
+			if !ok {
+				return false
+			}
+			cell, ok := fr.i.globals[g]
+			if !ok {
+				return false
+			}
+			w, ok := (*cell).(iface)
+			if !ok || w.t == nil || !types.Identical(w.t, it.t) {
+				return false
+			}
+			pv, ok1 := it.v.(*value)
+			pw, ok2 := w.v.(*value)
+			return ok1 && ok2 && pv == pw
+		}
 		m["os.IsNotExist"] = func(fr *frame, args []value) value {
+			if sentinel(fr, args[0], "ErrNotExist") {
+				return true
+			}
 			e, ok := errnoOf(args[0])
 			return ok && e == 2 // ENOENT
 		}
 		m["os.IsExist"] = func(fr *frame, args []value) value {
+			if sentinel(fr, args[0], "ErrExist") {
+				return true
+			}
 			e, ok := errnoOf(args[0])
 			return ok && (e == 17 || e == 39) // EEXIST, ENOTEMPTY
 		}
